@@ -215,6 +215,11 @@ func (d *Dialer) dial() (*DialContext, error) {
 	if d.mode == Advertise {
 		restore, err = d.setAutoconf()
 		if err != nil {
+			// The caller only ever cleans up a successfully returned
+			// DialContext, so release the connection we just opened.
+			_ = conn.LeaveGroup(netip.IPv6LinkLocalAllRouters())
+			_ = conn.Close()
+
 			return nil, err
 		}
 	}
